@@ -64,6 +64,7 @@ type PathResult struct {
 	KnownHit  []string
 	Recovered []string
 	ForkSites map[string]int
+	Trace     []string
 }
 
 type Exec struct {
@@ -88,6 +89,7 @@ type Exec struct {
 	inits     []initRec
 	symPtrs   map[string]Ptr
 	curModel  string
+	knownAtoms map[string]bool
 }
 
 func (e *Exec) end(status, why string) {
@@ -107,12 +109,52 @@ func (e *Exec) assertPC(t *Term) {
 		return
 	}
 	e.pc = append(e.pc, t)
+	e.noteKnown(t)
 	e.sol.Assert(t)
+}
+
+// noteKnown records asserted atoms so that a later branch on the very same condition needs no solver call
+func (e *Exec) noteKnown(t *Term) {
+	if e.knownAtoms == nil {
+		e.knownAtoms = map[string]bool{}
+	}
+	switch {
+	case t.Op == "and":
+		for _, a := range t.Args {
+			e.noteKnown(a)
+		}
+	case t.Op == "not":
+		e.knownAtoms[t.Args[0].Key()] = false
+	default:
+		e.knownAtoms[t.Key()] = true
+	}
+}
+
+func (e *Exec) simplifyKnown(t *Term) *Term {
+	if t.IsConst() || e.knownAtoms == nil {
+		return t
+	}
+	if v, ok := e.knownAtoms[t.Key()]; ok {
+		return BoolT(v)
+	}
+	if t.Op == "not" {
+		if v, ok := e.knownAtoms[t.Args[0].Key()]; ok {
+			return BoolT(!v)
+		}
+	}
+	return t
 }
 
 // decide picks one of mutually exclusive, jointly exhaustive alternatives; new feasible alternatives are
 // queued as decision prefixes for later paths.
 func (e *Exec) decide(alts []*Term) int {
+	if e.knownAtoms != nil {
+		orig := alts
+		alts = make([]*Term, len(orig))
+		for i, a := range orig {
+			alts[i] = e.simplifyKnown(a)
+		}
+	}
 	// literal shortcut
 	nonFalse := -1
 	cnt := 0
@@ -137,6 +179,7 @@ func (e *Exec) decide(alts []*Term) int {
 		c := e.prefix[e.pos]
 		e.pos++
 		e.decisions = append(e.decisions, c)
+		e.traceDecision(alts, c, nil)
 		e.assertPC(alts[c])
 		return c
 	}
@@ -187,8 +230,24 @@ func (e *Exec) decide(alts []*Term) int {
 	}
 	e.pos++
 	e.decisions = append(e.decisions, c)
+	e.traceDecision(alts, c, feas)
 	e.assertPC(alts[c])
 	return c
+}
+
+func (e *Exec) traceDecision(alts []*Term, c int, feas []int) {
+	if !e.W.trace {
+		return
+	}
+	s := alts[c].SMT()
+	if len(s) > 160 {
+		s = s[:160] + "..."
+	}
+	site := e.curModel
+	if site == "" && len(e.frames) > 0 {
+		site = e.frames[len(e.frames)-1].fn.Name()
+	}
+	e.res.Trace = append(e.res.Trace, fmt.Sprintf("#%d pick %d of %d feasible=%v @%s: %s", len(e.decisions)-1, c, len(alts), feas, site, s))
 }
 
 // branch on a boolean term
